@@ -29,6 +29,8 @@ var scenarios = []struct{ name, text string }{
 	{"mixed-kinds-multiple", "grammar mk ;\nIF = \"if\" ;\nID = /[a-z]+/ ;\nIF = \"fi\" ;\nID = /[a-z]*/ ;\nNN = $NUMBER ;\nNN = /[0-9]/ ;\nstart = IF ID NN ;\n"},
 	{"mixed-kinds-same-value", "grammar ms ;\nstart = AA BB \"x\" CC DD \"y\" ;\nAA = \"x\" ;\nCC = /y/ ;\nDD = \"y\" ;\nBB = \"q\" ;\n@left AA ;\n@right AA BB ;\n"},
 	{"uses-before-definitions", "grammar ub ;\n@left \"+\" PLUS ;\nstart = e ;\ne = e \"+\" e | e PLUS e | UU | VV | WW ;\nPLUS = \"plus\" ;\n"},
+	{"shadowed-token", "grammar sh ;\nBOOL = /true|false/ ;\nNIL = /nil/ ;\nID = /[a-z]+/ ;\nstart = \"true\" \"false\" \"nil\" BOOL NIL ID \"if\" ;\n"},
+	{"shadowed-token-statements", "grammar shadow ;\nBOOL = /true|false/ ;\nID = /[a-z]+/ ;\nNUM = /[0-9]+/ ;\nstart = { stmt } ;\nstmt = ID \"=\" val \";\" ;\nval = \"true\" | \"false\" | BOOL | ID | NUM | \"(\" val \")\" ;\n"},
 	{"lalr-conflicts", "grammar lc ;\nstart = e ;\ne = e \"+\" e | e \"*\" e | \"i\" ;\n"},
 	{"valid-with-operators", "grammar ops ;\nID = $ID ;\nWS = $WS ;\n@left \"*\" ;\n@left \"+\" ;\nstart = { stmt } ;\nstmt = ID \"=\" e \";\" ;\ne = e \"+\" e | e \"*\" e | [ \"-\" ] ID | \"(\" e \")\" ;\n"},
 }
@@ -138,8 +140,10 @@ type replayInput struct {
 	Choices  []int
 }
 
+// inRepo: the point lies in /repo, or lies in the dependency but was reached directly from a line of /repo
+// (the dependency's shuffled iteration order leaking into emerge's own loops).
 func inRepo(site string) bool {
-	return strings.HasPrefix(site, "internal/") || strings.HasPrefix(site, "cmd/")
+	return strings.HasPrefix(site, "internal/") || strings.HasPrefix(site, "cmd/") || strings.Contains(site, "@internal/")
 }
 
 func main() {
@@ -181,7 +185,7 @@ func main() {
 		freshProcesses(r)
 	}
 	if r.Fork(16) {
-		r.Set("rule", "9 scenarios (every map on the path has >= 2 entries); one execution = spec.Parse + golang.Generate into a fresh directory with a recording UI; every range over a Go map in /repo and in the dependency and every shuffle of the dependency is a choice point; all executions with at most d non-default orders are enumerated (quick: d=1 over all /repo points and the first 3 occurrences of every dependency site; thorough: d=2 over /repo points, d=1 over the first 40 occurrences of every dependency site); states = distinct observations (must be 1 per scenario), transitions = executions")
+		r.Set("rule", "11 scenarios (every map on the path has >= 2 entries); one execution = spec.Parse + golang.Generate into a fresh directory with a recording UI; every range over a Go map in /repo and in the dependency and every shuffle of the dependency is a choice point; all executions with at most d non-default orders are enumerated (quick: d=1 over all /repo points and the first 3 occurrences of every dependency site; thorough: d=2 over /repo points, d=1 over the first 40 occurrences of every dependency site); states = distinct observations (must be 1 per scenario), transitions = executions")
 		r.Set("evaluations", r.Get("executions"))
 		r.Set("transitions", r.Get("executions"))
 		r.Set("traces_validated_against_impl", r.Get("executions"))
